@@ -160,13 +160,26 @@ func cmdCheck(argv []string) int {
 	var slowest *Obligation
 	var samples []map[string]string
 	undecidedFuncs := []string{}
+	os.MkdirAll(replayDir(), 0o755)
+	witnessRuns := []string{}
 	for _, r := range reports {
 		if r.Unsupported != "" {
 			undecidedFuncs = append(undecidedFuncs, r.Name+": "+r.Unsupported)
+			// the verifier cannot speak about this function: search for a witness by running the
+			// executable contract on the real code; only a reproduced failure is a violation
+			if f := eng.topFns[r.Name]; f != nil && !*noReplay && (len(f.contract.Ensures) > 0 || true) {
+				file, found, summary := eng.witnessSearch(*prop, f, seed)
+				witnessRuns = append(witnessRuns, r.Name+": "+summary)
+				if found {
+					exit = 1
+					violations = append(violations, fmt.Sprintf("VIOLATION property=%s replay=%s function=%s undecided-by-verifier(%s) witness-found-on-real-code", *prop, file, r.Name, truncate(r.Unsupported, 160)))
+					continue
+				}
+			}
 			fmt.Printf("UNDECIDED function=%s reason=%s\n", r.Name, r.Unsupported)
 		}
 	}
-	os.MkdirAll(replayDir(), 0o755)
+	harnessTried := map[string]string{}
 	for _, o := range eng.obls {
 		solverSecs += o.Secs
 		if slowest == nil || o.Secs > slowest.Secs {
@@ -232,6 +245,21 @@ func cmdCheck(argv []string) int {
 		} else {
 			rp = writeReplayText(*prop, o, "solver status: "+o.Status+" ("+o.Raw+")")
 			suffix = " no-failing-input-found"
+			// no model: look for a failing input by running the executable contract (once per function)
+			if !*noReplay {
+				if prev, done := harnessTried[o.Fn]; done {
+					if prev != "" {
+						rp, suffix = prev, ""
+					}
+				} else if f := eng.topFns[o.Fn]; f != nil {
+					file, found, _ := eng.genReplay(*prop, f, o, nil, seed, 5000)
+					harnessTried[o.Fn] = ""
+					if found {
+						harnessTried[o.Fn] = file
+						rp, suffix = file, ""
+					}
+				}
+			}
 		}
 		violations = append(violations, fmt.Sprintf("VIOLATION property=%s replay=%s obligation=%s at=%s status=%s what=%q%s", *prop, rp, o.Name, o.Pos, o.Status, o.Desc, suffix))
 	}
